@@ -106,7 +106,7 @@ class Ctx:
         if env:
             e.update(env)
         try:
-            p = subprocess.run(cmd, cwd=self.scratch, env=e, capture_output=True, text=True, timeout=timeout)
+            p = subprocess.run(cmd, cwd=self.scratch, env=e, capture_output=True, text=True, errors="replace", timeout=timeout)
         except subprocess.TimeoutExpired:
             raise Infra("harness timed out: " + " ".join(cmd))
         if p.returncode != 0 or not os.path.exists(out):
